@@ -179,6 +179,18 @@ func oneCase(c *lib.Ctx, rng *lib.RNG, sc *lib.Script, fails *[]lib.OracleFail) 
 	r := &run{c: c, sc: sc, st: store.New(), docs: map[int]doc{}, fails: fails}
 	ctx := context.Background()
 	nops := rng.Range(6, c.Scale(26, 60))
+	// The WRITER's context: the in-memory store ignores it for the mutation itself, so it must not decide whether
+	// the watchers hear of a mutation that succeeded either (seeded changes c12h / c13h threaded it into
+	// stream.Emit). One mutation in five is called with an already cancelled context.
+	dead, cancelDead := context.WithCancel(ctx)
+	cancelDead()
+	wctx := func() context.Context {
+		if rng.Chance(1, 5) {
+			c.Hit("writer-context-cancelled")
+			return dead
+		}
+		return ctx
+	}
 	polls := 0
 	kinds := map[string]bool{}
 	for i := 0; i < nops; i++ {
@@ -227,7 +239,7 @@ func oneCase(c *lib.Ctx, rng *lib.RNG, sc *lib.Script, fails *[]lib.OracleFail) 
 			c.Hit("op-watch-" + f.String()[:1])
 		case 1: // insert one (maybe duplicate id)
 			d := doc{id: rng.Intn(6), k: rng.Intn(3), n: rng.Intn(4), o: rng.Intn(3)}
-			err := r.st.Insert(ctx, []any{d.m()})
+			err := r.st.Insert(wctx(), []any{d.m()})
 			_, dup := r.docs[d.id]
 			if (err != nil) != dup {
 				r.fail("insert-outcome", fmt.Sprintf("insert %+v: err=%v, duplicate=%v", d, err, dup))
@@ -250,7 +262,7 @@ func oneCase(c *lib.Ctx, rng *lib.RNG, sc *lib.Script, fails *[]lib.OracleFail) 
 				ds = append(ds, d)
 				batch = append(batch, d.m())
 			}
-			err := r.st.Insert(ctx, batch)
+			err := r.st.Insert(wctx(), batch)
 			stopped := false
 			for _, d := range ds {
 				if stopped {
@@ -298,7 +310,7 @@ func oneCase(c *lib.Ctx, rng *lib.RNG, sc *lib.Script, fails *[]lib.OracleFail) 
 			case 3:
 				upd["$unset"] = map[string]any{"o": 1}
 			}
-			n, err := r.st.Update(ctx, filter, upd, opts...)
+			n, err := r.st.Update(wctx(), filter, upd, opts...)
 			if _, exists := r.docs[upID]; upsert && len(ids) == 0 && exists {
 				// the id exists with another k: the upsert's insert is a duplicate and must be rejected
 				if err == nil {
@@ -346,7 +358,7 @@ func oneCase(c *lib.Ctx, rng *lib.RNG, sc *lib.Script, fails *[]lib.OracleFail) 
 		case 4: // delete by n > x
 			x := rng.Intn(4)
 			ids := r.sortedIDs(func(d doc) bool { return d.n > x })
-			n, err := r.st.Delete(ctx, map[string]any{"n": map[string]any{"$gt": x}})
+			n, err := r.st.Delete(wctx(), map[string]any{"n": map[string]any{"$gt": x}})
 			if err != nil {
 				r.fail("delete-error", err.Error())
 				continue
